@@ -494,4 +494,4 @@ pub fn run(rep: &Report) {
     rep.floor("programs assembled", rep.evals(), 5000);
 }
 
-pub const RULE: &str = "random programs rendered from an abstract syntax tree (all instruction classes and operand forms, data definitions, labels, procedures, macros) under random spelling choices. (1) structural: every emitted line is decoded by an independent reader and must denote the same operation with the same operands in the same roles (constants modulo operand width, xchg unordered, synonyms folded), one per source instruction in source order, labels/procedures resolving to the same instruction; data lines likewise. (2) metamorphic: re-renderings varying one dimension at a time (case, radix, white space / line breaks / several instructions per line, ';' comments through the driver's stripping rule) and all together must emit identical code, data and label maps; constants written as OFFSET of a data label (offset taken from the independently computed data image) must emit what the literal number emits, in immediate, displacement, direct-address and print positions, also when the context was used for another program before and clear()ed. Labels differing only in case stay distinct, also next to macro parameters, as data labels and as procedure names. The comment layer is cross-checked on the real binary's hook trace. Distinct = instruction class resp. CLI trace length. Macro uses with 1..14 parameters against their hand expansion; OFFSET of labels behind hundreds / tens of thousands of data bytes, with the same-fate rule for positions the offset does not fit.";
+pub const RULE: &str = "random programs rendered from an abstract syntax tree (all instruction classes and operand forms, data definitions, labels, procedures, macros) under random spelling choices. (1) structural: every emitted line is decoded by an independent reader and must denote the same operation with the same operands in the same roles (constants modulo operand width, xchg unordered, synonyms folded), one per source instruction in source order, labels/procedures resolving to the same instruction; data lines likewise. (2) metamorphic: re-renderings varying one dimension at a time (case, radix, white space / line breaks / several instructions per line, ';' comments through the driver's stripping rule) and all together must emit identical code, data and label maps; constants written as OFFSET of a data label (offset taken from the independently computed data image) must emit what the literal number emits, in immediate, displacement, direct-address and print positions, also when the context was used for another program before and clear()ed. Labels differing only in case stay distinct, also next to macro parameters, as data labels and as procedure names. The comment layer is cross-checked on the real binary's hook trace. Distinct = instruction class resp. CLI trace length. Macro uses with 1..14 parameters against their hand expansion; OFFSET of labels behind hundreds / tens of thousands of data bytes, with the same-fate rule for positions the offset does not fit. Filler sizes 253..257 put the first label exactly at / next to offset 255.";
